@@ -4,7 +4,7 @@ c=$1; pre=${2:-wt_m}
 for v in A B C D E F G H I J; do
   if [ -d /tmp/${pre}_$c/mutation/$v ]; then
     rm -rf /verif/seeded_pending/$c-$v; mkdir -p /verif/seeded_pending/$c-$v
-    for f in patch.diff demo.c build_demo.sh NOTES.md; do cp /tmp/${pre}_$c/mutation/$v/$f /verif/seeded_pending/$c-$v/ 2>/dev/null; done
+    for f in patch.diff demo.c build_demo.sh NOTES.md $(cd /tmp/${pre}_$c/mutation/$v && ls *.h 2>/dev/null); do cp /tmp/${pre}_$c/mutation/$v/$f /verif/seeded_pending/$c-$v/ 2>/dev/null; done
     sed -i "s#/tmp/${pre}_$c#/tmp/wt_m_$c#g" /verif/seeded_pending/$c-$v/build_demo.sh 2>/dev/null
     echo "$c-$v: $(ls /verif/seeded_pending/$c-$v | tr '\n' ' ')"
   fi
